@@ -789,3 +789,25 @@ def scale_items(rules=("TSLACK",)):
         ra = {w: [1, 2, 4, 6, 7, 8, 10, 12] if i == 0 else [0, 3, 5, 9, 11, 13, 14, 15] for i, w in enumerate(who)}
         out.append((sp, {"rule": rules[0], "absence": [5, 6], "res_absence": ra, "max_time": seq_bound(sp) + 30}))
     return out
+
+
+def auto_cure_specs():
+    """painted parts are cured by an automatic task: Paint1 feeds the oven Cure (capacity 1) by conveyor; Paint2 is free-standing, its parts have to cure on the Rack"""
+    out = []
+    for n in (2, 3):
+        tasks, comps, links = [], [], []
+        for i in range(n):
+            tasks += [{"name": "paint", "id": "P%d" % i, "work": float(1 + i % 2), "nf": True}, {"name": "cure", "id": "Q%d" % i, "work": 2.0, "auto": True}]
+            comps.append({"name": "c%d" % i, "tasks": [2 * i, 2 * i + 1], "space": 1.0})
+            links.append([2 * i, 2 * i + 1, "FS"])
+        paints = [2 * i for i in range(n)]
+        cures = [2 * i + 1 for i in range(n)]
+        wps = [{"name": "Paint1", "cap": 1.0, "targets": paints[:1], "facilities": [{"name": "G1", "skills": {"paint": 1.0}}]},
+               {"name": "Paint2", "cap": 2.0, "targets": paints[1:], "facilities": [{"name": "G2", "skills": {"paint": 1.0}}, {"name": "G3", "skills": {"paint": 1.0}}]},
+               {"name": "Cure", "cap": 1.0, "targets": cures, "inputs": [0], "facilities": [{"name": "OV", "skills": {"cure": 1.0}}]},
+               {"name": "Rack", "cap": 3.0, "targets": cures, "facilities": [{"name": "RK", "skills": {"cure": 0.5}}]}]
+        teams = [{"name": "TM0", "targets": paints, "workers": [{"name": "W%d" % i, "skills": {"paint": 1.0}, "fskills": {"G1": 1.0, "G2": 1.0, "G3": 1.0}} for i in range(n)]}]
+        for wpr in ("FSS", "SSP"):
+            sp = {"tasks": [dict(t, wprule=wpr) for t in tasks], "links": links, "components": comps, "workplaces": wps, "teams": teams, "label": "auto-cure:%d:%s" % (n, wpr)}
+            out.append(sp)
+    return out
